@@ -147,7 +147,9 @@ fn row<T>(k: usize, r: &StaticTypeResolver, r2: &StaticTypeResolver, rf: &Static
     }
     if (ws(&host.name), host.size, host.align) != (wn.clone(), wsz, wal) { bad18.push(format!("the host resolver answers size {} align {} instead of size_of {} / align_of {}", host.size, host.align, wsz, wal)); }
     let stdname = std::any::type_name::<T>();
-    for s in spellings.iter().cloned().chain(std::iter::once(stdname)) {
+    // the compiler's spelling with a blank around every punctuation token
+    let spaced_std = stdname.replace("::", " :: ").replace('<', " < ").replace('>', " > ").replace(',', " , ").replace('[', "[ ").replace(';', " ; ");
+    for s in spellings.iter().cloned().chain([stdname, spaced_std.as_str()]) {
         let got = look(r, s);
         match &got {
             None => bad17.push(format!("lookup of the spelling `{}` fails", s)),
@@ -307,7 +309,7 @@ def run_e6(tier, seed):
                                       "what": "the recorded name `%s` of `%s` does not denote that type in generated code (rustc rejects the identity probe)" % (names.get(k), types[k].rust)})
         if not badl:
             raise Broken("identity probe failed to build:\n" + o2[-2000:])
-    res["counts"] = {"types": len(types), "spellings_per_type": 4, "std_table_entries_checked": nstd}
+    res["counts"] = {"types": len(types), "spellings_per_type": 5, "std_table_entries_checked": nstd}
     res["by_depth"] = {str(d): sum(1 for t in types if t.depth == d) for d in (0, 1, 2, 3)}
     res["samples"] = [t.rust for t in types[20:23] + types[-3:]]
     res["wall_s"] = time.time() - t0
